@@ -46,6 +46,11 @@ def _Stages(case, text):
   for name, get in (('parsed', lambda: rules0),
                     ('made', lambda: [r for _, r in
                                       m['universe'].LogicaProgram(rules0).rules])):
+    if case.get('workflow') and name == 'made':
+      # an iterative plan is a loop run by the workflow executor: its rules
+      # alone (the ignition steps) do not denote the result
+      out.append({'name': name, 'skipped': 'iterative plan'})
+      continue
     if recursive and name == 'parsed':
       # the parser's auxiliary predicates lengthen the recursive cycle: the
       # parsed stage is compared only for non-recursive programs
